@@ -40,6 +40,10 @@ claim("C13", "closed-world enumeration of store-family call sites + path-sensiti
       "Structural necessary condition of fail-closed store handling for every fault position at once: no store/lock/ping error is dropped at any of the enumerated call sites (propagated or examined; two reviewed exceptions are structurally checked), cookie only after persist, redirects only after save, readiness 200 only after ping ok, decrypt slicing bounds-guarded. Level 'other'.",
       TRUST + " Not decided: fault sequences (lost replies, pairs), codec behaviour on corrupt bytes, time-outs.", "DESIGN.md §5 C13")
 
+claim("C12", "path-sensitive SSA fact walk (lock protocol order, release-on-all-exits) + who-may-call + sentinel agreement",
+      "Structural necessary condition only: the SHAPE of the refresh protocol (single refresh site; refresh reachable only after lock obtained -> reload -> overwrite -> second needsRefresh; releasing defer on every lock-holding exit; stale sessions accepted only via validateSession's verdict; loader clears on failure; ticket reuse; lock sentinel mapping). Level 'other': schedules are NOT explored, so 'exactly one refresh' is not claimed.",
+      TRUST + " Not decided: interleavings, lock expiry vs IdP latency, token rotation behaviour.", "DESIGN.md §5 C12")
+
 for i in range(2, 21):
     pid = "C%02d" % i
     if pid not in T:
